@@ -16,7 +16,7 @@ TIER_PROCS = min(16, os.cpu_count() or 1)
 def stmt_mask(pred=None) -> bytearray:
     """mask of statement points; default: all instrumented execnet statements"""
     if pred is None:
-        return instrument.select(lambda m, q, l: True)
+        return instrument.select(instrument.default_pred)
     return instrument.select(pred)
 
 
